@@ -38,7 +38,7 @@ func (cx *Ctx) ssoChain(r *Report) *ssoKeys {
 		return nil
 	}
 	k.form = one("form", cx.stepsReaching(ch, matchFnKey(w, "provider.getAuthRequestFromRequest")))
-	k.decode = one("decode", cx.stepsReaching(ch, matchFnKey(w, "xml.DecodeAuthNRequest")))
+	k.decode = one("decode", cx.stepsReaching(ch, matchDecoder(w, "samlp.AuthnRequestType")))
 	k.sp = one("sp", cx.stepsReaching(ch, matchStorage("GetEntityByID")))
 	k.cert = one("cert", cx.stepsByFactory(ch, "logic", "provider.checkCertificate"))
 	k.sigRedirect = one("sig-redirect", cx.stepsByFactory(ch, "logic", "provider.verifyRedirectSignature"))
